@@ -75,7 +75,10 @@ def ctrlpoints(draw, n, dim=None, values=None):
 
 def pos_weights(n):
     w = st.builds(lambda a, d: F(a, d), st.integers(1, 9), st.sampled_from([1, 1, 2, 3, 5]))
-    return st.lists(w, min_size=n, max_size=n)
+    generic = st.lists(w, min_size=n, max_size=n)
+    # one case in six: all weights equal to one constant (the curve is then a polynomial curve in disguise)
+    constant = w.map(lambda x: [x] * n)
+    return st.one_of(generic, generic, generic, generic, generic, constant)
 
 
 @st.composite
